@@ -172,6 +172,35 @@ func (vc *VC) cutLoop(f *Frame, l *Loop, n *Node) {
 	for _, c := range l.Ann.Inv {
 		env2.assumeClause(n.Reach, c.E)
 	}
+	for _, h := range l.Ann.Hints {
+		v := env2.eval(h.E)
+		if vc.hints == nil {
+			vc.hints = map[string][]string{}
+		}
+		if v.Untyped != nil {
+			vc.hints[h.Name] = append(vc.hints[h.Name], bvLitBig(64, v.Untyped), bvLitBig(32, v.Untyped))
+		} else {
+			vc.hints[h.Name] = append(vc.hints[h.Name], vc.defS(v.sort(), v.term(), "hint_"+h.Name))
+		}
+	}
+	if sp := l.Ann.Split; sp != nil {
+		// loop-level case split: one VC per value of the expression at the loop head
+		key := fmt.Sprintf("loop%d:%s", l.Ordinal, sp.Text)
+		val, have := vc.valDecisions[key]
+		if !have {
+			var vals []int64
+			for v := sp.Lo; v <= sp.Hi; v++ {
+				vals = append(vals, v)
+			}
+			panic(needDecision{key: key, values: vals})
+		}
+		sv := env2.eval(sp.E)
+		lit := bvLit(sv.sort().Bits(), val)
+		vc.assume(implies(n.Reach, eq(sv.term(), lit)))
+		if isAtom(sv.term()) || strings.HasPrefix(sv.term(), "(select (select ") {
+			vc.consts[sv.term()] = lit
+		}
+	}
 	if l.Ann.Decr != nil {
 		// termination measure at the loop head (signed 64-bit)
 		m := env2.eval(l.Ann.Decr.E)
@@ -323,8 +352,10 @@ func (vc *VC) checkInvariant(f *Frame, l *Loop, from *Node, predIdx int, cond, w
 			cond, and(app("bvslt", m1, m0), app("bvsge", m0, bvLit(64, 0))), "@loop", "@progress")
 	}
 	for i, c := range l.Ann.Inv {
-		vc.oblige("loop-inv-"+what, fmt.Sprintf("invariant %d of loop %d of %s is not %s by the body: %s", i, l.Ordinal, f.fn.Name(), what, c.Text),
-			cond, env.evalGoal(c.E), append([]string{"@loop"}, c.Tags...)...)
+		for _, pe := range splitConst(c.E) {
+			vc.obligeNoAssumeKind("loop-inv-"+what, fmt.Sprintf("invariant %d of loop %d of %s is not %s by the body: %s", i, l.Ordinal, f.fn.Name(), what, c.Text),
+				cond, env.evalGoal(pe), append([]string{"@loop"}, c.Tags...)...)
+		}
 	}
 }
 
